@@ -394,5 +394,5 @@ func execC16Pipe(c C16PipeCase) *Failure {
 func init() { registerReplay("C16P", execC16Pipe) }
 
 func TestC16Pipeline(t *testing.T) {
-	runProperty(t, "C16", genC16Pipe, execC16Pipe)
+	runPropertyAs(t, "C16", "C16P", genC16Pipe, execC16Pipe)
 }
